@@ -531,7 +531,14 @@ Lemma wf_kinds_in l k : wf_kinds l = true -> In k l -> cfg_ok (kind_cfg k None) 
 Proof.
   unfold wf_kinds. intros H Hin. apply andb_prop in H. destruct H as (H & _). apply andb_prop in H.
   destruct H as (_ & H). rewrite forallb_forall in H. specialize (H k Hin). unfold wf_kind in H.
-  apply andb_prop in H. exact (proj1 H).
+  apply andb_prop in H. destruct H as (H & _). apply andb_prop in H. exact (proj1 H).
+Qed.
+
+Lemma wf_kinds_span l k : wf_kinds l = true -> In k l -> k_span k = SpanEmit.
+Proof.
+  unfold wf_kinds. intros H Hin. apply andb_prop in H. destruct H as (H & _). apply andb_prop in H.
+  destruct H as (_ & H). rewrite forallb_forall in H. specialize (H k Hin). unfold wf_kind in H.
+  apply andb_prop in H. destruct H as (_ & H). destruct (k_span k); [reflexivity|discriminate].
 Qed.
 
 Theorem exactly_once_kinds : forall (l : list kind_orders), wf_kinds l = true ->
@@ -635,4 +642,171 @@ Proof.
   { induction l as [|a l IHl]; [reflexivity|]. cbn [map own flat_map app] in *. f_equal. exact IHl. }
   rewrite Hown. rewrite (filter_ext _ (fun j => Nat.leb k j)) by (intros j; apply keep_gt_seq).
   rewrite filter_ge_seq. f_equal; lia.
+Qed.
+
+(* ---------- several producers on one stream: with the seq mutex spanning the whole emit they are ONE producer ---------- *)
+Lemma actives_nil_upd ps : actives ps = [] -> forall j f,
+  actives (upd_nth j f ps) = match nth_error ps j with Some p => actives [f p] | None => [] end.
+Proof.
+  induction ps as [|p r IH]; intros H j f; [destruct j; reflexivity|].
+  unfold actives in *. cbn [map filter] in H. destruct (negb (is_idle (fst p))) eqn:E; [discriminate|].
+  destruct j as [|j]; cbn [upd_nth nth_error map filter].
+  - rewrite H. destruct (negb (is_idle (fst (f p)))); reflexivity.
+  - rewrite E. apply IH. exact H.
+Qed.
+
+Lemma actives_nth_nonidle ps : forall j ph l, nth_error ps j = Some (ph, l) -> is_idle ph = false -> In ph (actives ps).
+Proof.
+  induction ps as [|p r IH]; intros j ph l Hn Hi; [destruct j; discriminate|].
+  unfold actives in *. cbn [map filter]. destruct j as [|j]; cbn [nth_error] in Hn.
+  - inversion Hn; subst p. cbn [fst]. rewrite Hi. left. reflexivity.
+  - destruct (negb (is_idle (fst p))); [right|]; eapply IH; eauto.
+Qed.
+
+Lemma actives_one_upd ps a : actives ps = [a] -> forall j l f, nth_error ps j = Some (a, l) ->
+  actives (upd_nth j f ps) = actives [f (a, l)].
+Proof.
+  induction ps as [|p r IH]; intros H j l f Hn; [destruct j; discriminate|].
+  assert (is_idle a = false) as Ha.
+  { assert (In a (actives (p :: r))) as Hin by (rewrite H; left; reflexivity).
+    unfold actives in Hin. apply filter_In in Hin. destruct Hin as (_ & Hb). destruct (is_idle a); [discriminate|reflexivity]. }
+  unfold actives in *. cbn [map filter] in H. destruct j as [|j]; cbn [nth_error] in Hn; cbn [upd_nth map filter].
+  - inversion Hn; subst p. cbn [fst] in H. rewrite Ha in H. cbn [negb] in H. inversion H as [Hr]. rewrite Hr.
+    destruct (negb (is_idle (fst (f (a, l))))); reflexivity.
+  - destruct (negb (is_idle (fst p))) eqn:E.
+    + inversion H as [[Hp Hr]]. exfalso.
+      pose proof (actives_nth_nonidle r j a l Hn Ha) as Hin. unfold actives in Hin. rewrite Hr in Hin. destruct Hin.
+    + apply (IH H j l f Hn).
+Qed.
+
+Lemma actives_one_is ps a : actives ps = [a] -> forall j ph l, nth_error ps j = Some (ph, l) -> is_idle ph = false -> ph = a.
+Proof.
+  intros H j ph l Hn Hi. pose proof (actives_nth_nonidle ps j ph l Hn Hi) as Hin. rewrite H in Hin.
+  destruct Hin as [E|[]]. symmetry. exact E.
+Qed.
+
+Lemma work_left_upd ps : forall j ph l ph' l', nth_error ps j = Some (ph, l) ->
+  work_left (upd_nth j (fun _ => (ph', l')) ps) + l = work_left ps + l'.
+Proof.
+  induction ps as [|p r IH]; intros j ph l ph' l' Hn; [destruct j; discriminate|].
+  destruct j as [|j]; cbn [nth_error] in Hn; cbn [upd_nth work_left fold_right].
+  - inversion Hn; subst p. cbn [snd]. fold (work_left r). lia.
+  - fold (work_left r) (work_left (upd_nth j (fun _ => (ph', l')) r)). specialize (IH j ph l ph' l' Hn). lia.
+Qed.
+
+(* the invariant of SpanEmit: at most one producer is inside its emit, and it holds the latest number *)
+Definition MInv (s : mst) : Prop :=
+  actives (m_prods s) = [] \/
+  (exists k, actives (m_prods s) = [MChosen k] /\ m_next s = S k) \/
+  (exists k, actives (m_prods s) = [MRecorded k] /\ m_next s = S k).
+
+(* every step of the multi-producer system is a step of the one-producer model, or leaves its view unchanged *)
+Lemma mstep_view c s a : c_p c = RecThenPub -> MInv s ->
+  MInv (mstep c SpanEmit s a) /\
+  (mview (mstep c SpanEmit s a) = mview s \/ exists a', mview (mstep c SpanEmit s a) = step c (mview s) a').
+Proof.
+  intros Hp HI. destruct a as [j|i|].
+  - (* producer j *)
+    cbn [mstep]. unfold prod_step. destruct (nth_error (m_prods s) j) as [[ph l]|] eqn:En; [|split; [exact HI|left; reflexivity]].
+    destruct ph as [|k|k].
+    + (* idle *)
+      destruct l as [|l]; [split; [exact HI|left; reflexivity]|].
+      destruct (actives (m_prods s)) as [|a0 r0] eqn:Ea; [|split; [exact HI|left; reflexivity]].
+      pose proof (actives_nil_upd _ Ea j (fun _ => (MChosen (m_next s), l))) as Hu. rewrite En in Hu.
+      split.
+      * right; left. exists (m_next s). cbn [m_prods m_next]. rewrite Hu. split; reflexivity.
+      * left. unfold mview. cbn [m_prods m_next m_hist m_subs]. rewrite Hu, Ea. cbn [actives map filter fst is_idle negb].
+        pose proof (work_left_upd _ j MIdle (S l) (MChosen (m_next s)) l En) as Hw. f_equal. f_equal. lia.
+    + (* chosen k: record *)
+      destruct HI as [Ea|[(k0 & Ea & Hn)|(k0 & Ea & Hn)]].
+      * pose proof (actives_nth_nonidle _ j _ l En eq_refl) as Hin. rewrite Ea in Hin. destruct Hin.
+      * pose proof (actives_one_is _ _ Ea j _ l En eq_refl) as E. inversion E; subst k0.
+        pose proof (actives_one_upd _ _ Ea j l (fun _ => (MRecorded k, l)) En) as Hu.
+        split.
+        -- right; right. exists k. cbn [m_prods m_next]. rewrite Hu. split; [reflexivity|exact Hn].
+        -- right. exists AP. unfold mview. cbn [m_prods m_next m_hist m_subs]. rewrite Hu, Ea.
+           cbn [actives map filter fst is_idle negb].
+           pose proof (work_left_upd _ j (MChosen k) l (MRecorded k) l En) as Hw.
+           replace (work_left (upd_nth j (fun _ => (MRecorded k, l)) (m_prods s))) with (work_left (m_prods s)) by lia.
+           rewrite (rest_unfold RecThenPub _ k) by lia. cbn [frame_steps app step g_prog g_hist g_subs]. reflexivity.
+      * pose proof (actives_one_is _ _ Ea j _ l En eq_refl) as E. discriminate E.
+    + (* recorded k: publish *)
+      destruct HI as [Ea|[(k0 & Ea & Hn)|(k0 & Ea & Hn)]].
+      * pose proof (actives_nth_nonidle _ j _ l En eq_refl) as Hin. rewrite Ea in Hin. destruct Hin.
+      * pose proof (actives_one_is _ _ Ea j _ l En eq_refl) as E. discriminate E.
+      * pose proof (actives_one_is _ _ Ea j _ l En eq_refl) as E. inversion E; subst k0.
+        pose proof (actives_one_upd _ _ Ea j l (fun _ => (MIdle, l)) En) as Hu.
+        split.
+        -- left. cbn [m_prods]. rewrite Hu. reflexivity.
+        -- right. exists AP. unfold mview. cbn [m_prods m_next m_hist m_subs]. rewrite Hu, Ea.
+           cbn [actives map filter fst is_idle negb step g_prog g_hist g_subs].
+           pose proof (work_left_upd _ j (MRecorded k) l MIdle l En) as Hw.
+           replace (work_left (upd_nth j (fun _ => (MIdle, l)) (m_prods s))) with (work_left (m_prods s)) by lia.
+           rewrite Hn. reflexivity.
+  - split; [exact HI|]. right. exists (AS i). reflexivity.
+  - split; [exact HI|]. right. exists AO. reflexivity.
+Qed.
+
+Lemma mrun_view c : c_p c = RecThenPub -> forall msched s, MInv s ->
+  exists sched, mview (mrun c SpanEmit msched s) = run c sched (mview s).
+Proof.
+  intros Hp. induction msched as [|a l IH]; intros s HI; [exists []; reflexivity|].
+  destruct (mstep_view c s a Hp HI) as (HI' & Hv). destruct (IH _ HI') as (sched & E).
+  unfold mrun in *. cbn [fold_left]. rewrite E. destruct Hv as [Hv|(a' & Hv)]; rewrite Hv.
+  - exists sched. reflexivity.
+  - exists (a' :: sched). reflexivity.
+Qed.
+
+Lemma work_left_map work : work_left (map (fun w => (MIdle, w)) work) = fold_right Nat.add 0 work.
+Proof. induction work as [|w r IH]; [reflexivity|]. cbn [map work_left fold_right snd] in *. fold (work_left (map (fun w => (MIdle, w)) r)). rewrite IH. reflexivity. Qed.
+
+Lemma actives_minit work : actives (map (fun w => (MIdle, w)) work) = [].
+Proof. induction work as [|w r IH]; [reflexivity|]. unfold actives in *. cbn [map filter fst is_idle negb]. exact IH. Qed.
+
+Lemma mview_minit c work m : c_p c = RecThenPub -> mview (minit work m) = init c (fold_right Nat.add 0 work) m.
+Proof.
+  intros Hp. unfold mview, minit, init. cbn [m_next m_prods m_hist m_subs]. rewrite actives_minit, work_left_map, Hp.
+  reflexivity.
+Qed.
+
+(* any number of producers, any split of the frames among them, any schedule: the subscribers of the multi-producer
+   system are subscribers of a one-producer stream of the same total length, so exactly-once carries over *)
+Theorem multi_producer_exactly_once : forall (c : cfg),
+  c_p c = RecThenPub -> c_s c = SubThenSnap -> c_f c = FilterGtLast -> c_cap c = None ->
+  forall (work : list nat) (m : nat) (msched : list mactor) (i : nat) (x : sub),
+  nth_error (m_subs (mfinal c SpanEmit work m msched)) i = Some x -> attached x = true ->
+  ExactlyOnce c (fold_right Nat.add 0 work) (mview (mfinal c SpanEmit work m msched)) x.
+Proof.
+  intros c H1 H2 H3 H4 work m msched i x Hn Ha. unfold mfinal in *.
+  assert (MInv (minit work m)) as HI by (left; apply actives_minit).
+  destruct (mrun_view c H1 msched _ HI) as (sched & E). rewrite E, (mview_minit c work m H1).
+  apply (exactly_once_thm c H1 H2 H3 H4 _ m sched i x); [|exact Ha].
+  unfold final. rewrite <- (mview_minit c work m H1), <- E. exact Hn.
+Qed.
+
+(* with the mutex narrowed to the counter two producers lose a frame: A takes 0, B takes 1, B records and publishes 1,
+   the subscriber attaches (history [1], last = 1), A records and publishes 0 - dropped by `seq > last` *)
+Definition narrowed_sched : list mactor := [MP 0; MP 1; MP 1; MP 1; MS 0; MS 0; MP 0; MP 0].
+Lemma span_counter_refuted :
+  m_hist (mfinal okc SpanCounter [1; 1] 1 narrowed_sched) = [1; 0]
+  /\ map attached (m_subs (mfinal okc SpanCounter [1; 1] 1 narrowed_sched)) = [true]
+  /\ map (delivered okc) (m_subs (mfinal okc SpanCounter [1; 1] 1 narrowed_sched)) = [[1]]
+  /\ actives (m_prods (mfinal okc SpanCounter [1; 1] 1 narrowed_sched)) = []
+  /\ work_left (m_prods (mfinal okc SpanCounter [1; 1] 1 narrowed_sched)) = 0.
+Proof. vm_compute. repeat split. Qed.
+(* the same schedule under SpanEmit: B is blocked until A is done, nothing is lost *)
+Lemma span_emit_same_schedule :
+  map (delivered okc) (m_subs (mfinal okc SpanEmit [1; 1] 1 (narrowed_sched ++ [MP 1; MP 1; MP 1; MS 0]))) = [[0; 1]]
+  /\ m_hist (mfinal okc SpanEmit [1; 1] 1 (narrowed_sched ++ [MP 1; MP 1; MP 1; MS 0])) = [0; 1].
+Proof. vm_compute. repeat split. Qed.
+
+(* for the stream kinds read from the source: the span is the extracted one *)
+Theorem multi_producer_kinds : forall (l : list kind_orders), wf_kinds l = true ->
+  forall (k : kind_orders), In k l ->
+  forall (work : list nat) (m : nat) (msched : list mactor) (i : nat) (x : sub),
+  nth_error (m_subs (mfinal (kind_cfg k None) (k_span k) work m msched)) i = Some x -> attached x = true ->
+  ExactlyOnce (kind_cfg k None) (fold_right Nat.add 0 work) (mview (mfinal (kind_cfg k None) (k_span k) work m msched)) x.
+Proof.
+  intros l Hl k Hk. rewrite (wf_kinds_span l k Hl Hk). rewrite (cfg_ok_eq _ (wf_kinds_in l k Hl Hk) eq_refl).
+  exact (multi_producer_exactly_once okc eq_refl eq_refl eq_refl eq_refl).
 Qed.
